@@ -20,6 +20,7 @@ No sampling anywhere: both parts are plain products over the stated alphabets.
 synthetic classes, which must be real types.)
 """
 import dataclasses
+import gc
 import itertools
 import math
 import struct
@@ -364,8 +365,26 @@ def alphabet(tp, mode: str, thorough: bool):
         out = []
         for a in typing.get_args(tp):
             out.extend(alphabet(a, mode, thorough))
+        # a tuple alternative next to a scalar alternative: also tuples made of those scalars
+        scalars = [v for v in out if v is not None and not isinstance(v, tuple)]
+        for a in typing.get_args(tp):
+            if typing.get_origin(a) is tuple:
+                el = typing.get_args(a)[0]
+                for m in scalars:
+                    if _fits(m, el):
+                        out.extend([(m,), (m, m)])
         return _dedup(out)
     raise TypeError(tp)
+
+
+def _fits(v, tp) -> bool:
+    if tp in (int, float, str, bool):
+        return type(v) is tp
+    if typing.get_origin(tp) in _UNIONS:
+        return any(_fits(v, a) for a in typing.get_args(tp))
+    if typing.get_origin(tp) is Literal:
+        return v in typing.get_args(tp)
+    return False
 
 
 def benign(tp):
@@ -577,7 +596,8 @@ def base_status(st: Stats, cls, base: dict):
 
 
 def _wit(cls, kwargs, varied, api, kind, detail, text):
-    return {"part": "instance", "pass": cls.name, "kwargs": {k: enc(v) for k, v in kwargs.items()},
+    return {"part": "instance", "pass": cls.name, "values": {k: enc(kwargs[k]) for k in varied},
+            "python": {k: repr(kwargs[k]) for k in varied}, "other_fields": "defaults (required fields: benign value)",
             "varied": list(varied), "api": api, "kind": kind, "printed": text, "observed": detail,
             "expected": "re-parsed pass equal to the original (floats by bits) and identical re-print"}
 
@@ -604,7 +624,7 @@ def task_base(arg) -> Stats:
             continue
         if status == "fail":
             st.outcomes[f"base:fail:{api}:{kind}"] += 1
-            st.violate(f"C18|{api}|base|{name}|{kind}",
+            st.violate(f"C18|{api}|base|{name}",
                        f"pass {name} with default/benign options does not round-trip ({api}: {kind})",
                        _wit(cls, base, [], api, kind, detail, text))
             continue
@@ -631,9 +651,9 @@ def _record(st, cls, kwargs, varied, vclasses, res, tag):
     st.outcomes[f"{tag}:fail:{api}:{kind}"] += 1
     if len(vclasses) == 1:
         t, c = vclasses[0]
-        sig = f"C18|{api}|{t}|{c}|{kind}"
+        sig = f"C18|{api}|{t}|{c}"
     else:
-        sig = f"C18|{api}-pair|" + "+".join(f"{t}:{c}" for t, c in vclasses) + f"|{kind}"
+        sig = f"C18|{api}-pair|" + "|".join(f"{t}:{c}" for t, c in vclasses)
     st.violate(sig, f"{cls.name}: option value of class {'+'.join(t + ':' + c for t, c in vclasses)} does not "
                     f"round-trip through the printed pipeline spec ({api}: {kind})",
                _wit(cls, kwargs, varied, api, kind, detail, text))
@@ -796,12 +816,40 @@ def check_text(st: Stats, s: str, first_is_ident: bool) -> None:
     st.outcomes[f"parse:specs={min(len(specs), 3)};build:passes"] += 1
     # ---- "printing a pipeline and parsing it yields the same pipeline", on parser-made pipelines
     if pp.passes:
-        r = roundtrip_pipeline(st, list(pp.passes))
+        blamed = False
+        for p in pp.passes:
+            r = roundtrip_one(st, p, False)
+            if r is not None:
+                # same oracle as part 1; blame the most suspicious option value of that pass
+                blamed = True
+                kind, detail, text = r
+                t, c = _blame(p)
+                st.outcomes[f"parsed-pass:fail:{kind}"] += 1
+                st.violate(f"C18|roundtrip|{t}|{c}",
+                           f"{type(p).name}: a pass obtained by parsing holds an option value of class {t}:{c} and does "
+                           f"not round-trip through its printed spec ({kind})",
+                           {"part": "parse", "text": s, "printed": text, "kind": kind, "observed": detail})
+        r = None if blamed else roundtrip_pipeline(st, list(pp.passes))
         if r is not None:
             kind, detail, text = r
-            st.violate(f"C18|parse-print-parse|pipeline|{kind}",
+            st.violate("C18|parse-print-parse|pipeline|any",
                        f"a pipeline obtained by parsing does not survive print -> parse ({kind})",
-                       {"part": "parse", "text": s, "printed": text, "observed": detail})
+                       {"part": "parse", "text": s, "printed": text, "kind": kind, "observed": detail})
+
+
+def _blame(p) -> tuple[str, str]:
+    """Class of the most suspicious non-default option value of a pass instance."""
+    fields, base = pass_fields(type(p))
+    best = None
+    for n, _, shp in fields:
+        v = getattr(p, n)
+        if n in base and tkey(base[n]) == tkey(v):
+            continue
+        elems = v if isinstance(v, tuple) else (v,)
+        rank = max([scalar_class(e)[2] for e in elems] or [0])
+        if best is None or rank > best[0]:
+            best = (rank, value_class(v, shp or "unsupported"))
+    return best[1] if best is not None else ("parsed", type(p).name)
 
 
 def task_tokens(arg) -> Stats:
@@ -838,7 +886,7 @@ def run(ctx):
     n_fields = 0
     n_pairs = 0
     n_cls = 0
-    for name, cls in sorted(reg.items()):
+    for name, cls in sorted(reg.items(), key=lambda kv: (kv[1] in SYNTH, kv[0])):  # registered passes first
         if cls in LEX:
             continue
         try:
@@ -855,10 +903,10 @@ def run(ctx):
             tasks.append(("pair", (name, fa, fb, thorough, ctx.seed)))
             n_pairs += 1
     bare_len = ctx.pick(4, 5)
-    framed_len = ctx.pick(3, 4)
-    plen = 2
+    framed_len = ctx.pick(4, 5)
     for framed, maxlen in ((False, bare_len), (True, framed_len)):
         skip = bare_len if framed else 0
+        plen = max(1, maxlen - 3)  # ~10^4 strings per shard
         # words shorter than the shard prefix length, then one shard per prefix
         for k in range(plen):
             for w in itertools.product(LEXEMES, repeat=k):
@@ -869,10 +917,21 @@ def run(ctx):
     words = ["".join(w) for k in range(4) for w in itertools.product(LEXEMES, repeat=k)]
     if len(set(words)) != len(words):
         ctx.stats.cap("lexeme alphabet is not uniquely decodable: 'states' over-counts distinct strings")
-    # big shards first
-    order = {"tokens": 0, "field": 1, "pair": 2, "base": 3}
-    tasks.sort(key=lambda t: (order[t[0]], -(t[1][1] if t[0] == "tokens" else 0)))
-    for _, st in pmap(_task, tasks):
+    # few coarse buckets (many tiny tasks are slow on a loaded machine): big token shards stay
+    # alone, everything else is dealt round-robin into buckets
+    tasks = list(enumerate(tasks))  # index = merge order (keeps the recorded witnesses stable)
+    is_big = lambda t: t[1][0] == "tokens" and t[1][1][1] - len(t[1][1][0]) >= 3  # noqa: E731
+    big = [t for t in tasks if is_big(t)]
+    small = [t for t in tasks if not is_big(t)]
+    nb = 48
+    buckets = [tuple(big[i::nb * 4]) for i in range(min(nb * 4, len(big)))] + \
+              [tuple(small[i::nb]) for i in range(min(nb, len(small)))]
+    gc.collect()
+    gc.freeze()  # keep the forked workers from copying the parent's heap on every collection
+    results = []
+    for _, res in pmap(_bucket, [b for b in buckets if b]):
+        results.extend(res)
+    for _, st in sorted(results, key=lambda r: r[0]):
         ctx.merge(st)
     ctx.bounds = {
         "part1": {
@@ -902,6 +961,10 @@ def run(ctx):
     ]
 
 
+def _bucket(ts):
+    return [(i, _task(t)) for i, t in ts]
+
+
 def _task(t):
     kind, arg = t
     return {"base": task_base, "field": task_field, "pair": task_pair, "tokens": task_tokens}[kind](arg)
@@ -915,8 +978,9 @@ def replay(rep) -> bool:
         check_text(st, w["text"], True)
         return sig not in st.violations
     cls = registry()[w["pass"]]
-    kwargs = {k: dec(v) for k, v in w["kwargs"].items()}
     fields, base = pass_fields(cls)
+    kwargs = dict(base)
+    kwargs.update({k: dec(v) for k, v in w["values"].items()})
     info = {n: s for n, _, s in fields}
     varied = w["varied"]
     partner = _partner()
@@ -924,7 +988,7 @@ def replay(rep) -> bool:
     res = check_instance(st, cls, kwargs, partner, skip)
     if not varied:
         if res[0] == "fail":
-            st.violate(f"C18|{res[1]}|base|{cls.name}|{res[2]}", "", {})
+            st.violate(f"C18|{res[1]}|base|{cls.name}", "", {})
     else:
         _record(st, cls, kwargs, varied, [value_class(kwargs[f], info[f]) for f in varied], res, "replay")
     return sig not in st.violations
